@@ -112,14 +112,41 @@ def run_case(sh, s, d, case, script=None):
 
     def backup(flags, unfinished=False):
         nonlocal now
-        now = tick(now, rnd.choice([1, 2, 60, 3600, 86400]))
+        ticking = script is None and rnd.random() < 0.4
+        now = tick(now, rnd.choice([1, 2, 60, 3600, 86400]) if not ticking else rnd.choice([10, 60, 3600, 86400]))
         argv = ['-B', '-r', repo, '-f', src] + flags
         opt = R.parseargs(argv)
-        opt.test_now = now
+        if not ticking:
+            opt.test_now = now
+        if ticking:
+            # no fixed test time: repozo reads a clock that is one second later at every look (a backup of a big file takes
+            # longer than a second) - all files of one backup must still carry one name
+            import time as _rt
+            import calendar
+
+            class _Tick:
+                def __init__(self, t0):
+                    self.t = t0 - 1
+
+                def gmtime(self, *a):
+                    if a:
+                        return _rt.gmtime(*a)
+                    self.t += 1
+                    return _rt.gmtime(self.t)
+
+                def __getattr__(self, n):
+                    return getattr(_rt, n)
+            R.time = _Tick(calendar.timegm(now + (0, 0, 0)))
+            sh.count('backups_under_a_ticking_clock')
         before = set(os.listdir(repo))
         S = committed_prefix()
         try:
-            quiet(R.do_backup, opt)
+            try:
+                quiet(R.do_backup, opt)
+            finally:
+                if ticking:
+                    import time as _rt2
+                    R.time = _rt2
         except AssertionError:
             if '-Q' in flags and packs_since_full[0]:
                 # same family as the known quick-after-pack finding: the vacuous range check lets an incremental
@@ -142,6 +169,17 @@ def run_case(sh, s, d, case, script=None):
                 b['held'] = False
         if kindb == 'full':
             packs_since_full[0] = 0
+        if ticking:
+            # the time this backup carries is the one repozo read for its file name; the harness clock moves on behind it
+            now = tuple(int(x) for x in made[0].split('.')[0].split('-'))
+            stamps = {f.split('.')[0] for f in new}
+            if len(stamps) != 1:
+                sh.violation('c18:files-of-one-backup-carry-different-timestamps', {'files': sorted(new), 'flags': flags}, case)
+            now = tick(now, 5)
+            backups.append({'date': tick(now, -5), 'S': S, 'held': True, 'kind': kindb, 'file': made[0], 'quick': '-Q' in flags,
+                            'packs_since_full': packs_since_full[0]})
+            trace.append('backup%s:%s%s:ticking-clock' % (''.join(flags), kindb, ':unfinished-txn' if unfinished else ''))
+            return
         backups.append({'date': now, 'S': S, 'held': True, 'kind': kindb, 'file': made[0], 'quick': '-Q' in flags,
                         'packs_since_full': packs_since_full[0]})
         trace.append('backup%s:%s%s' % (''.join(flags), kindb, ':unfinished-txn' if unfinished else ''))
